@@ -1,0 +1,12 @@
+//go:build !verif
+
+package tcpassembly
+
+import "sync"
+
+// No-op variants of the simulation hooks (see verif_on.go, -tags verif).
+
+func verifYieldM(site int, m *sync.Mutex)                 {}
+func verifYieldRW(site int, rw *sync.RWMutex, write bool) {}
+func verifPoint(site int)                                 {}
+func verifOrderConns(conns []*connection) []*connection   { return conns }
